@@ -84,7 +84,11 @@ if res["confirmed"]:
     meta["property"] = pid
     prev = {}
     if os.path.exists(f"{out_dir}/meta.json"):
-        prev = json.load(open(f"{out_dir}/meta.json")).get("verified_by_coordinator", {})
+        prev_meta = json.load(open(f"{out_dir}/meta.json"))
+        prev = prev_meta.get("verified_by_coordinator", {})
+        for k in ("strengthened", "note_coordinator"):
+            if k in prev_meta:
+                meta[k] = prev_meta[k]
         for k in ("suite_tail", "suite_passed", "suite_s"):
             if k in prev and k not in res:
                 res[k] = prev[k]
